@@ -114,6 +114,36 @@ func checkC13(c *Ctx) {
 				sprintf("%s (on a request path) stores a request-scoped %s into %s, which outlives the request: a concurrent or later request can observe another request's context/session", fname(fn), vt, target))
 		})
 	}
+	// handing a request-scoped object to a sync.Pool is the same escape: the pool gives it to a later request as it is
+	for _, fn := range sortedFuncs(reach) {
+		ir.EachCall(fn, func(call ssa.CallInstruction) {
+			if ir.CallName(call) != "(*sync.Pool).Put" || len(call.Common().Args) < 2 {
+				return
+			}
+			v := call.Common().Args[1]
+			for {
+				if ci, ok := v.(*ssa.ChangeInterface); ok {
+					v = ci.X
+					continue
+				}
+				break
+			}
+			vt := ir.TypeStr(ir.Unwrap(v).Type())
+			scoped := requestScopedTypes[vt] || requestScopedTypes[ir.TypeStr(v.Type())]
+			if sI := c.P.RootNamed("Session"); sI != nil && !scoped {
+				if it, ok := sI.Underlying().(*types.Interface); ok && types.Implements(ir.Unwrap(v).Type(), it) {
+					scoped, vt = true, ir.TypeStr(ir.Unwrap(v).Type())+" (a Session)"
+				}
+			}
+			nStores++
+			if !scoped {
+				return
+			}
+			nEsc++
+			c.R.Violate("R-no-escape", vt+" put into a sync.Pool by "+fname(fn), c.Pos(call.Pos()),
+				sprintf("%s (on a request path) recycles a request-scoped %s through a sync.Pool: the next request that takes it from the pool sees whatever this request left in it (session data, negotiated version) — usually a request of another client", fname(fn), vt))
+		})
+	}
 	if nEsc == 0 {
 		c.R.Hold("R-no-escape", "request-scoped values stay in objects of their own request", "", sprintf("%d stores of request-scoped values examined on %d request-path functions", nStores, len(reach)))
 	}
